@@ -74,6 +74,10 @@ package traversal
 
 //@ func (Progress).walkBlock(n, s, visitFn) (err)
 //@   requires wfprog(prog) && n != nil && s != nil && visitFn != nil
+//   without a preloader there is one pass, charged to the caller's budget; every pass walks the
+//   same node with the same selector, callback and path
+//@   before walkAdv assert[C15] prog.Cfg.Preloader == nil ==> carg0.Budget == old(prog.Budget) && carg1 == phaseTraverse
+//@   before walkAdv assert[C07,C15] carg2 == n && carg3 == s && carg4 == visitFn && carg0.Path == old(prog.Path) && carg0.Cfg == old(prog.Cfg) && carg0.SeenLinks == old(prog.SeenLinks)
 //@   assigns[C20] foreign, prog.Budget.NodeBudget, prog.Budget.LinkBudget, map(prog.SeenLinks), ghostall("io.Reader.pos"), ghostall("io.Writer.fed"), ghostall("io.Writer.fedof"), ghostall("linking.BlockWriteCommitter.calls")
 
 //@ func (Progress).walkAdv(ph, n, s, visitFn) (err)
@@ -222,6 +226,8 @@ package traversal
 //@   ensures old(prog.Cfg) != nil && old(prog.Cfg.LinkTargetNodePrototypeChooser) != nil ==> prog.Cfg.LinkTargetNodePrototypeChooser == old(prog.Cfg.LinkTargetNodePrototypeChooser)
 //@   ensures prog.Cfg.LinkVisitOnlyOnce ==> prog.SeenLinks != nil && fresh(prog.SeenLinks)
 //@   ensures !prog.Cfg.LinkVisitOnlyOnce ==> prog.SeenLinks == old(prog.SeenLinks)
+//   the budget, the path so far and the resume flag are the caller's: init leaves them alone
+//@   ensures[C15] prog.Budget == old(prog.Budget) && prog.Path == old(prog.Path) && prog.PastStartAtPath == old(prog.PastStartAtPath)
 
 //@ func contains(interest, candidate) (r)
 //@   assigns[C20] nothing
@@ -230,7 +236,7 @@ package traversal
 //@ func (Progress).WalkTransforming(n, s, fn) (r, err)
 //@   requires wfprog(prog) && n != nil && s != nil && fn != nil
 //@   assigns[C20] foreign, prog.Budget.NodeBudget, prog.Budget.LinkBudget, map(prog.SeenLinks), ghostall("io.Reader.pos"), ghostall("io.Writer.fed"), ghostall("io.Writer.fedof"), ghostall("linking.BlockWriteCommitter.calls")
-//@   before walkTransforming assert[C16] carg1 == n && carg2 == s && carg3 == fn && carg0.Path == prog.Path && carg0.Budget == prog.Budget
+//@   before walkTransforming assert[C16,C15] carg1 == n && carg2 == s && carg3 == fn && carg0.Path == old(prog.Path) && carg0.Budget == old(prog.Budget)
 
 //@ func (Progress).walkTransforming(n, s, fn) (r, err)
 //@   requires wfprog(prog) && n != nil && s != nil && fn != nil
@@ -290,12 +296,21 @@ package traversal
 // ---- C20: entry points; a traversal writes nothing shared (the Config is only read) ----
 //@ func (Progress).WalkAdv(n, s, fn) (err)
 //@   requires n != nil && s != nil && fn != nil && prog.Cfg != nil && prog.Cfg.LinkSystem.DecoderChooser != nil && prog.Cfg.LinkSystem.HasherChooser != nil
+//   the walk runs on the caller's budget, from the caller's path, over the node and selector given
+//@   before walkBlock assert[C15,C07] carg0.Budget == old(prog.Budget) && carg0.Path == old(prog.Path) && carg0.PastStartAtPath == old(prog.PastStartAtPath) && carg1 == n && carg2 == s && carg3 == fn
 //@   assigns[C20] foreign, prog.Budget.NodeBudget, prog.Budget.LinkBudget, map(prog.SeenLinks), ghostall("io.Reader.pos"), ghostall("io.Writer.fed"), ghostall("io.Writer.fedof"), ghostall("linking.BlockWriteCommitter.calls")
 //@ func (Progress).WalkMatching(n, s, fn) (err)
 //@   requires n != nil && s != nil && fn != nil && prog.Cfg != nil && prog.Cfg.LinkSystem.DecoderChooser != nil && prog.Cfg.LinkSystem.HasherChooser != nil
+//@   before walkBlock assert[C15,C07] carg0.Budget == old(prog.Budget) && carg0.Path == old(prog.Path) && carg0.PastStartAtPath == old(prog.PastStartAtPath) && carg1 == n && carg2 == s
 //@   assigns[C20] foreign, prog.Budget.NodeBudget, prog.Budget.LinkBudget, map(prog.SeenLinks), ghostall("io.Reader.pos"), ghostall("io.Writer.fed"), ghostall("io.Writer.fedof"), ghostall("linking.BlockWriteCommitter.calls")
+// the matching-only walk forwards exactly the visits whose reason is a match, with the matched node
 //@ func (Progress).WalkMatching$1(prog, n, tr) (err)
+//@   requires fn != nil
 //@   assigns[C20] nothing
+//@   before fn assert[C07] tr == VisitReason_SelectionMatch && carg0 == prog && carg1 == n
+//@   after fn let forwarded = true
+//@   ensures[C07] tr == VisitReason_SelectionMatch ==> defined(forwarded)
+//@   ensures[C07] tr != VisitReason_SelectionMatch ==> err == nil
 //@ func (Progress).FocusedTransform(n, p, fn, createParents) (r, err)
 //@   requires n != nil && fn != nil && prog.Cfg != nil && prog.Cfg.LinkSystem.DecoderChooser != nil && prog.Cfg.LinkSystem.HasherChooser != nil && prog.Cfg.LinkSystem.EncoderChooser != nil
 //@   assigns[C20] foreign, prog.Budget.NodeBudget, prog.Budget.LinkBudget, ghostall("io.Reader.pos"), ghostall("io.Writer.fed"), ghostall("io.Writer.fedof"), ghostall("linking.BlockWriteCommitter.calls")
